@@ -1,12 +1,21 @@
 import Drv.Common
 import IwModel.Model.JsonParse
 import IwModel.Model.JsonPrint
-import IwModel.Model.JsonFloat
+import IwModel.Model.Strtod
 namespace Drv.C13
 open IwModel IwModel.Json Drv
 
+/-- hardware cross-check of the soft float: `mul add div ==` of every pair of bit patterns on the line -/
+def f64Pairs : List String → List String
+  | a :: b :: r =>
+    let x := JVal.hexNat a
+    let y := JVal.hexNat b
+    JVal.hex16 (SoftF64.mul x y) :: JVal.hex16 (SoftF64.add x y) :: JVal.hex16 (SoftF64.div x y) ::
+      (if SoftF64.feq x y then "1" else "0") :: f64Pairs r
+  | _ => []
+
 def showParse (text : Bytes) : String :=
-  match parse strtodBits text with
+  match parse iwstrtodModel text with
   | .error e => s!"err {e.name}"
   | .ok none => "ok NULL"
   | .ok (some v) => s!"ok {v.toWire}"
@@ -31,8 +40,10 @@ def step (ws : List String) : String :=
       | .error e => s!"unesc rc={e.name}"
       | .ok (len2, out, _) => s!"unesc rc=0 len={len} fill={len2} out={hexOut out} end={p.length - endp.length}"
   | ["strtod", h] =>
-    let (b, n, er) := strtodBits (cstr (hexArg h))
+    let (b, n, er) := iwstrtodModel (cstr (hexArg h))
     s!"strtod {JVal.hex16 b} {n} {if er then 1 else 0}"
+  | "f64" :: ws => " ".intercalate ("f64" :: f64Pairs ws)
+  | ["i2d", i] => s!"i2d {JVal.hex16 (SoftF64.ofInt (intArg i))}"
   | ["ftoa", b] =>
     let t := ftoa (JVal.hexNat b)
     s!"ftoa {hexOut t} len={t.length}"
